@@ -13,6 +13,7 @@ from fv.claims import CLAIMS
 from fv.ekfref import RefEKF
 
 ID = "C16"
+CASE_TIMEOUT_S = 2400  # per-case alarm (seconds); a case that does not finish is reported as a violation
 LEVEL = "exploration"
 TECHNIQUE = CLAIMS[ID]["technique"]
 RULE = (
